@@ -15,7 +15,7 @@ from symx.stubs import stubbed
 META = dict(
     bounds=dict(
         quick="segmentation: bases of 1-3 shells, each segmented / SP / generalized with 1..3 contractions (thorough 5), "
-              "angular momenta 0..3 mixed, kinds c/p, 1-2 primitives, all real exponents > 0 and contraction "
+              "angular momenta 0..3 mixed, kinds c/p, 1-2 primitives (one shell: 3 and 4 primitives), all real exponents > 0 and contraction "
               "coefficients, keep_sp in {False, True}; un-restriction: restricted sets with 1..3 orbitals, 2 basis "
               "functions, all real occupations (integer open-shell and fractional paths), with/without occs_aminusb, "
               "optional arrays present/absent; unrestricted and generalized inputs; prepare_* wrappers with "
@@ -266,6 +266,12 @@ def jobs(tier):
             out.append(job("C14", f"segmented[nshell={nshell},keep_sp={int(keep_sp)}]", M, "h_segmented",
                            dict(nshell=nshell, nprim=2 if nshell < 3 else 1, keep_sp=keep_sp, tier=tier),
                            budget_s=200 if not big else 3000, max_validate=20))
+    # longer contractions (a contraction may skip primitives in the middle: zero coefficients are ordinary values)
+    for nprim in (3, 4):
+        for keep_sp in (False, True):
+            out.append(job("C14", f"segmented[nshell=1,nprim={nprim},keep_sp={int(keep_sp)}]", M, "h_segmented",
+                           dict(nshell=1, nprim=nprim, keep_sp=keep_sp, tier=tier), budget_s=200 if not big else 1500,
+                           max_validate=20))
     out.append(job("C14", "segmented[twin]", M, "h_segmented", dict(nshell=1, nprim=1, twin=True), expect="cex"))
     for keep_sp in (False, True):
         out.append(job("C14", f"prepare-segmented[keep_sp={int(keep_sp)}]", M, "h_prepare_segmented",
